@@ -233,6 +233,17 @@ func genModuleG(seed uint64, stream string, fault, dup int) (string, *modGen) {
 	for _, i := range forder {
 		g.genFunc(i, nF, nG, nT, nblocks, fname, gname, tname, md, unnamedGlobal, nAttr)
 	}
+	// ---- blockaddress constants outside function bodies: in a module-level use-list order directive and
+	//      inside a numbered metadata definition (both are translated after the function bodies)
+	if r.chance(70) {
+		k := r.intn(nF)
+		g.begin("metadata", fmt.Sprintf("!%d", 900+k), "plain", false) // carrier of the site in the skeleton only
+		g.line("uselistorder i8* blockaddress(%s, %s), { 1, 0 }", g.use("blockaddr_func", fname(k), "uselistorder blockaddress function"), g.use("blockaddr_block", "%b1", "uselistorder blockaddress block"))
+	}
+	mdBA := -1
+	if r.chance(70) {
+		mdBA = r.intn(nF)
+	}
 	// ---- attribute groups
 	for i := 0; i < nAttr; i++ {
 		g.def("attr", fmt.Sprintf("#%d", i))
@@ -244,7 +255,12 @@ func genModuleG(seed uint64, stream string, fault, dup int) (string, *modGen) {
 	for _, i := range mdorder {
 		dup := g.def("metadata", fmt.Sprintf("!%d", i))
 		g.begin("metadata", fmt.Sprintf("!%d", i), "plain", dup)
-		l := fmt.Sprintf("!%d = !{%s, %s, i32 %d}", i, md(), md(), i)
+		var l string
+		if !(mdBA >= 0 && i == 0) {
+			l = fmt.Sprintf("!%d = !{%s, %s, i32 %d}", i, md(), md(), i)
+		} else {
+			l = fmt.Sprintf("!%d = !{%s, i8* blockaddress(%s, %s), i32 %d}", i, md(), g.use("blockaddr_func", fname(mdBA), "metadata blockaddress function"), g.use("blockaddr_block", "%b2", "metadata blockaddress block"), i)
+		}
 		if dup {
 			g.line("%s", l)
 		}
